@@ -442,6 +442,7 @@ def _any_all(is_any):
 
 def _int_ctor(interp, st, args, kwargs):
     (v,) = args
+    v = ops.unwrap_opt(interp, st, v, 'int_arg')
     if isinstance(v, int):
         yield st, int(v)
         return
